@@ -221,4 +221,65 @@ theorem preloaded_readonly {G : Type} (load : Nat → Option G) (n : Nat) (cp : 
     · rfl
     · rw [pl]; simp
 
+
+/-! ## hinted-advance cache -/
+
+/-- every cell is invalid or holds what the callback says for its glyph -/
+def AdvOK {V : Type} (sent : V) (f : Nat → V) (c : List V) : Prop := ∀ g v, c[g]? = some v → v = sent ∨ v = f g
+
+theorem advInit_ok {V : Type} (sent : V) (f : Nat → V) (n : Nat) : AdvOK sent f (advInit sent n) := by
+  intro g v h
+  unfold advInit at h
+  rw [List.getElem?_replicate] at h
+  split at h
+  · cases h; exact .inl rfl
+  · cases h
+
+/-- one request: the value is the callback's, the cache stays consistent and keeps its size, and the callback is called
+exactly when the cell was invalid -/
+theorem advance_spec {V : Type} [DecidableEq V] (sent : V) (f : Nat → V) (c : List V) (gid : Nat) (h : AdvOK sent f c)
+    (hg : gid < c.length) :
+    ∃ c' called, advance sent f c gid = some (f gid, c', called) ∧ AdvOK sent f c' ∧ c'.length = c.length ∧
+      (called = true ↔ c[gid]? = some sent) := by
+  unfold advance
+  have hv : c[gid]? = some c[gid] := List.getElem?_eq_getElem hg
+  rw [hv]
+  simp only []
+  split
+  · rename_i hs
+    refine ⟨c.set gid (f gid), true, ?_, ?_, by simp, by simp [hs]⟩
+    · simp [List.getD_eq_getElem?_getD, hg]
+    · intro g v hgv
+      rw [List.getElem?_set] at hgv
+      split at hgv
+      · rename_i e
+        first
+          | (cases hgv; exact .inr (by rw [e]))
+          | (split at hgv
+             · cases hgv; exact .inr (by rw [e])
+             · cases hgv)
+      · exact h g v hgv
+  · rename_i hs
+    refine ⟨c, false, ?_, h, rfl, by simp [hs]⟩
+    rcases h gid c[gid] hv with h1 | h1
+    · exact absurd h1 hs
+    · rw [← h1]
+
+/-- any history of requests for glyphs of the face: every answer is the callback's value for that glyph -/
+theorem advRun_values {V : Type} [DecidableEq V] (sent : V) (f : Nat → V) : ∀ (ops : List Nat) (c : List V),
+    AdvOK sent f c → (∀ g ∈ ops, g < c.length) →
+    (advRun sent f c ops).1.map (Option.map Prod.fst) = ops.map (fun g => some (f g)) ∧ AdvOK sent f (advRun sent f c ops).2 ∧
+      (advRun sent f c ops).2.length = c.length := by
+  intro ops
+  induction ops with
+  | nil => intro c h _; exact ⟨rfl, h, rfl⟩
+  | cons g rest ih =>
+    intro c h hb
+    obtain ⟨c', called, e, h', hl, _⟩ := advance_spec sent f c g h (hb g List.mem_cons_self)
+    unfold advRun
+    rw [e]
+    simp only []
+    obtain ⟨i1, i2, i3⟩ := ih c' h' (fun x hx => by rw [hl]; exact hb x (List.mem_cons_of_mem _ hx))
+    exact ⟨by simp [i1], i2, by rw [i3, hl]⟩
+
 end GrVerif.Borrow
